@@ -64,6 +64,10 @@ def run(ck, a):
     r2 = random.Random(800 + ck.seed)
     for w in ('h', 'hh', 'sh'):
       cfgs.append((w, r2.random() < 0.5, r2.randrange(8), r2.choice([1, -1]) if w == 'hh' else 1, False))
+  # root orientations with w == 0 (half turns): the Tier B pool has none, and sign canonicalisations of the reported quaternion break exactly there
+  root_override = {len(cfgs): (0, F(3, 5), F(4, 5), 0), len(cfgs) + 1: (0, 0, 0, 1)}
+  cfgs.append(('h', True, 3, 1, True))
+  cfgs.append(('s', True, 5, 1, True))
   if thorough:
     for w in words2:
       cfgs.append((w, True, rng.randrange(8), 1, False))
@@ -73,7 +77,7 @@ def run(ck, a):
                'core': '1- and 2-dof stacks; 3-dof stacks are extended (thorough)', 'outside': 'float round-off; root quaternion sign; known-finding cases'}
   ck.assumptions += ['reals for floats', 'sound identification axioms for atan2 / acos instantiated at the input angles', 'sqrt folded by solver lemmas against cos/sin candidates']
   replay_models = {}
-  for (word, free_root, fi, handed, is_core) in cfgs:
+  for ci_, (word, free_root, fi, handed, is_core) in enumerate(cfgs):
     spec = build_model(rng, word, free_root, fi, handed)
     xml = models.to_xml(spec)
     sys_ = mjcf.loads(xml)
@@ -85,7 +89,7 @@ def run(ck, a):
     q, qd = [], []
     hinge_vars = []
     if free_root:
-      q += [z3.Real('q%d' % i) for i in range(3)] + [F(repr(float(x))) for x in rng.choice(models.QUATS)]
+      q += [z3.Real('q%d' % i) for i in range(3)] + [F(x) if not isinstance(x, float) else F(repr(x)) for x in (root_override.get(ci_) or rng.choice(models.QUATS))]
       qd += [z3.Real('v%d' % i) for i in range(6)]
     for k, c in enumerate(word):
       v = z3.Real('q%d' % len(q))
